@@ -20,8 +20,8 @@ ASSUMPTIONS = [
     "conformance is judged by the harness's own structural checker over its own spec tree (never asks typelib what a type is); Python isinstance semantics at scalar positions (bool conforms to int, datetime to date)",
     "TypedDict closedness and dropped surplus fixed-tuple members are not demanded; RecursionError/MemoryError are neither results nor violations",
 ]
-PLAN = {"quick": dict(programs=900, depth=3, pool=14, values=2), "thorough": dict(programs=30000, depth=4, pool=30, values=4)}
-FLOORS = {"quick": {"returned": 20000, "raised": 15000, "corruptions": 15000, "shapes": 1200},
+PLAN = {"quick": dict(programs=4000, depth=3, pool=14, values=2), "thorough": dict(programs=30000, depth=4, pool=30, values=4)}
+FLOORS = {"quick": {"returned": 150000, "raised": 100000, "corruptions": 150000, "shapes": 4000},
           "thorough": {"returned": 600000, "raised": 400000, "corruptions": 400000, "shapes": 20000}}
 
 
@@ -114,7 +114,4 @@ def run_case(sh, i, plan):
 
 def run_shard(sh):
     plan = PLAN[sh.tier]
-    n = per_shard(plan["programs"], sh.nshards, sh.shard)
-    for i in range(n):
-        if sh.begin_case(i):
-            run_case(sh, i, plan)
+    sh.run_cases(per_shard(plan["programs"], sh.nshards, sh.shard), lambda i: run_case(sh, i, plan))
